@@ -28,10 +28,8 @@ Qed.
 Lemma zeros_length : forall n, length (zeros n) = n.
 Proof. induction n; simpl; auto. Qed.
 
-Lemma resize_length : forall l n, length (resize l n) = N.to_nat n.
-Proof.
-  intros. unfold resize. rewrite app_length, firstn_length, zeros_length. lia.
-Qed.
+Lemma resize_length : forall l n, fi_len (f_resize l n) = n.
+Proof. reflexivity. Qed.
 
 Lemma nth_error_length : forall A (l : list A) i x, nth_error l i = Some x -> (i < length l)%nat.
 Proof. intros. apply nth_error_Some. congruence. Qed.
@@ -61,20 +59,20 @@ Section Chunk.
 
   (* what a create_chunk call may do to the store: nothing below index i, and elsewhere only
      the ftruncate of a non-padding file to its size, and only for a writable request *)
-  Definition store_ext (w : bool) (i : nat) (s s' : list bytes) : Prop :=
+  Definition store_ext (w : bool) (i : nat) (s s' : list fimg) : Prop :=
     length s' = length s /\
-    (forall j, (j < i)%nat -> nth j s' [] = nth j s []) /\
-    (forall j, nth j s' [] = nth j s [] \/
+    (forall j, (j < i)%nat -> nth j s' fempty = nth j s fempty) /\
+    (forall j, nth j s' fempty = nth j s fempty \/
                (w = true /\ exists f, nth_error files j = Some f /\ f_pad f = false /\
-                                      nth j s' [] = resize (nth j s []) (f_size f))).
+                                      nth j s' fempty = f_resize (nth j s fempty) (f_size f))).
 
   (* the mapped window lies inside the file's current size; a writable request leaves the file
      at exactly its size *)
-  Definition mapped (w : bool) (st : list bytes) (p : part) : Prop :=
+  Definition mapped (w : bool) (st : list fimg) (p : part) : Prop :=
     p_pad p = false ->
-    p_foff p + p_size p <= N.of_nat (length (nth (p_file p) st [])) /\
+    p_foff p + p_size p <= fi_len (nth (p_file p) st fempty) /\
     (w = true -> exists f, nth_error files (p_file p) = Some f /\
-                           N.of_nat (length (nth (p_file p) st [])) = f_size f).
+                           fi_len (nth (p_file p) st fempty) = f_size f).
 
   Lemma store_ext_refl : forall w i s, store_ext w i s s.
   Proof. intros. repeat split; auto. Qed.
@@ -172,7 +170,7 @@ Section Chunk.
           + eapply Forall_impl; [|exact E6]. intros p [P1 P2]. split; [lia|auto]. }
       (* regular file *)
       fold o. fold l.
-      set (store1 := if w then upd store i (resize (nth i store []) (f_size f)) else store).
+      set (store1 := if w then upd store i (f_resize (nth i store fempty) (f_size f)) else store).
       assert (Hi : (i < length store)%nat) by (rewrite Hlen; eapply nth_error_length; eauto).
       assert (Hl1 : length store1 = length files).
       { unfold store1. destruct w; auto. rewrite upd_length. auto. }
@@ -183,9 +181,9 @@ Section Chunk.
         - intros j. destruct (Nat.eq_dec i j) as [<-|Hne].
           + right. split; auto. exists f. rewrite nth_upd_same by auto. auto.
           + left. apply nth_upd_other. auto. }
-      assert (Hcur : w = true -> N.of_nat (length (nth i store1 [])) = f_size f).
-      { intros ->. unfold store1. rewrite nth_upd_same by auto. rewrite resize_length. lia. }
-      set (cur := N.of_nat (length (nth i store1 []))) in *.
+      assert (Hcur : w = true -> fi_len (nth i store1 fempty) = f_size f).
+      { intros ->. unfold store1. rewrite nth_upd_same by auto. apply resize_length. }
+      set (cur := fi_len (nth i store1 fempty)) in *.
       destruct ((l =? 0) || (cur <? o) || (cur <? o + l)) eqn:Echk.
       { split; auto. destruct w; auto. specialize (Hcur eq_refl).
         rewrite !orb_true_iff, N.eqb_eq, !N.ltb_lt in Echk. lia. }
@@ -206,8 +204,8 @@ Section Chunk.
              ++ subst w. discriminate (proj1 Z).
       + destruct REC as (ps' & E1 & E2 & E3 & E4 & E5 & E6). exists (pt :: ps').
         destruct Hext1 as (X1 & X2 & X3). destruct E5 as (Y1 & Y2 & Y3).
-        assert (Hsame : nth i st [] = nth i store1 []) by (apply Y2; lia).
-        assert (Hother : forall j, j <> i -> nth j store1 [] = nth j store []).
+        assert (Hsame : nth i st fempty = nth i store1 fempty) by (apply Y2; lia).
+        assert (Hother : forall j, j <> i -> nth j store1 fempty = nth j store fempty).
         { intros j Hj. unfold store1. destruct w; auto. apply nth_upd_other. auto. }
         split; [exact E1|]. split; [simpl; auto|]. split; [simpl; lia|].
         split; [constructor; auto|]. split.
